@@ -20,6 +20,7 @@ import (
 
 	"github.com/gaissmai/bart"
 	"github.com/slackhq/nebula/config"
+	"github.com/slackhq/nebula/header"
 	"github.com/slackhq/nebula/overlay/batch"
 	"github.com/slackhq/nebula/overlay/tio"
 	"github.com/slackhq/nebula/routing"
@@ -190,4 +191,52 @@ func (v *VerifLifeCtl) StopConcurrently(n int, withStart bool) {
 		wg.Go(func() { _ = v.c.Start() })
 	}
 	wg.Wait()
+}
+
+// ---- what a send does to the lighthouse query channel (C49: Stop's tunnel-closing phase must not block) -----------
+
+type verifLifeCipher struct{}
+
+func (verifLifeCipher) EncryptDanger(out, ad, plaintext []byte, n uint64, nb []byte) ([]byte, error) {
+	return append(out, plaintext...), nil
+}
+func (verifLifeCipher) DecryptDanger(out, ad, ciphertext []byte, n uint64, nb []byte) ([]byte, error) {
+	return append(out, ciphertext...), nil
+}
+func (verifLifeCipher) Overhead() int { return 16 }
+
+const (
+	VerifLifeCloseTunnelType = int(header.CloseTunnel)
+	VerifLifeMaxMessageType  = int(header.Control)
+)
+
+// VerifLifeSendQueries runs the real Interface.send (the call Control.CloseAllTunnels and Control.CloseTunnel make)
+// for message type t on a tunnel whose lastRebindCount differs (or not) from the interface's rebindCount, on a
+// lighthouse or a plain node, and returns how many entries the call put into LightHouse.queryChan (no worker is
+// draining it here, so the count is exact; the capacity is large enough that nothing blocks).
+func VerifLifeSendQueries(t int, rebindMismatch, amLighthouse bool) int {
+	l := slog.New(slog.DiscardHandler)
+	ctx, cancel := context.WithCancel(context.Background())
+	defer cancel()
+	// a LightHouse without its query worker: whatever QueryServer queues stays queued, so the count is exact
+	lh := &LightHouse{l: l, ctx: ctx, amLighthouse: amLighthouse, addrMap: map[netip.Addr]*RemoteList{}, queryChan: make(chan netip.Addr, 16)}
+	lighthouses := []netip.Addr{}
+	staticList := map[netip.Addr]struct{}{}
+	lh.lighthouses.Store(&lighthouses)
+	lh.staticList.Store(&staticList)
+	conn := &verifLifeConn{closedCh: make(chan struct{})}
+	f := &Interface{
+		ctx: ctx, outside: conn, writers: []udp.Conn{conn}, hostMap: newHostMap(l), lightHouse: lh, l: l,
+		messageMetrics: newMessageMetricsOnlyRecvError(), connectionManager: &connectionManager{l: l},
+	}
+	if rebindMismatch {
+		f.rebindCount = 1
+	}
+	hi := &HostInfo{vpnAddrs: []netip.Addr{netip.MustParseAddr("10.128.0.9")},
+		ConnectionState: &ConnectionState{eKey: verifLifeCipher{}, dKey: verifLifeCipher{}, window: NewBits(ReplayWindow)},
+		localIndexId: 7, remoteIndexId: 9}
+	remote := netip.MustParseAddrPort("192.0.2.9:4242")
+	hi.remote.Store(&remote)
+	f.send(header.MessageType(t), 0, hi.ConnectionState, hi, []byte{}, make([]byte, 12, 12), make([]byte, mtu))
+	return len(lh.queryChan)
 }
